@@ -2,6 +2,7 @@ package wsx
 
 import (
 	"bytes"
+	"crypto/tls"
 	"encoding/base64"
 	"encoding/json"
 	"fmt"
@@ -46,6 +47,43 @@ func (f *Fixture) Dial(path string) (*Client, error) {
 		ws.Close()
 		return nil, fmt.Errorf("no server-side connection for %s", c.Local)
 	}
+	f.clients = append(f.clients, c)
+	go func() {
+		defer close(c.done)
+		for {
+			t, d, err := ws.ReadMessage()
+			if err != nil {
+				c.ReadErr = err
+				return
+			}
+			c.frames <- Frame{t, d}
+		}
+	}()
+	return c, nil
+}
+
+// DialTLS connects through the teamserver's own TLS listener (certificate not
+// verified).  No fault injection and no server-side view (Peer is nil), but the
+// handler goroutines are then created by the teamserver's own accept loop, exactly as
+// in production - which matters under the race detector: Start()'s certificate
+// goroutine and the connection handlers share a variable, ordered only by that
+// goroutine-creation edge.  Waits (bounded) for the listener to come up.
+func (f *Fixture) DialTLS(path string) (*Client, error) {
+	d := websocket.Dialer{HandshakeTimeout: 60 * time.Second, TLSClientConfig: &tls.Config{InsecureSkipVerify: true}}
+	var ws *websocket.Conn
+	var err error
+	deadline := time.Now().Add(120 * time.Second)
+	for {
+		ws, _, err = d.Dial(f.TLSBase+path, nil)
+		if err == nil || time.Now().After(deadline) {
+			break
+		}
+		time.Sleep(5 * time.Millisecond)
+	}
+	if err != nil {
+		return nil, err
+	}
+	c := &Client{Conn: ws, Local: ws.LocalAddr().String(), frames: make(chan Frame, 1<<15), done: make(chan struct{})}
 	f.clients = append(f.clients, c)
 	go func() {
 		defer close(c.done)
